@@ -21,6 +21,7 @@ std::vector<Call> calls;
 int curTick = 0;
 std::function<int(const std::string&, const std::string&)> decide;
 std::vector<HookEvent> hookEvents;
+Oomd::OomdContext* curCtx = nullptr;
 std::function<bool(const std::string&, long, int)> hookDecide;
 static long g_instSerial = 0;
 static long g_invSerial = 0;
@@ -33,6 +34,7 @@ void resetScript() {
   g_invSerial = 0;
   decide = nullptr;
   hookDecide = nullptr;
+  curCtx = nullptr;
 }
 
 void processInit() {
@@ -149,8 +151,12 @@ class Scripted : public Oomd::Engine::BasePlugin {
     calls.push_back(c);
     return 0;
   }
-  void prerun(Oomd::OomdContext& ctx) override { record("prerun", ctx, 0); }
+  void prerun(Oomd::OomdContext& ctx) override {
+    curCtx = &ctx;
+    record("prerun", ctx, 0);
+  }
   Oomd::Engine::PluginRet run(Oomd::OomdContext& ctx) override {
+    curCtx = &ctx;
     int r = decide ? decide(id_, inst_) : 0;
     record("run", ctx, r);
     if (busy_ > 0) {  // a slow plugin: virtual time passes while it runs
